@@ -570,6 +570,18 @@ def range_leak_sources() -> list[str]:
     return out
 
 
+def hyphen_sources() -> list[str]:
+    """A hyphen directly after a name: part of the name, unless the two
+    characters that close the markup follow it (then it is whitespace control)."""
+    names = ["x", "a.b", "a-b", "a.b-c", "true", "a['k'].b", "x-"]
+    out = []
+    for n in names:
+        for tail in ["-}}", "- }}", "-%}", "-}", "-%", "--}}", "-~}}", "-}}}", "-", "-}} -}}", "-.b}}", "-[0]}}"]:
+            out += ["{{" + n + tail, "{{ " + n + tail + " z", "{% if " + n + tail + "t{% endif %}", "{% capture " + n + tail + "{% endcapture %}",
+                    "{% liquid echo " + n + tail + "\n%}"]
+    return out
+
+
 def long_index_sources() -> list[str]:
     """Array indexes with exactly and just over sys.get_int_max_str_digits()
     digits (leading zeros keep the VALUE small, so the expected token is cheap
